@@ -70,6 +70,11 @@ class Executor:
         Largely passing through relevant assignments to the pool they belong to.
         '''
         results: List[ExecutionResult] = []
+        # a command for a pool that does not exist must not be dropped silently
+        # (its operators would stay ASSIGNED forever)
+        for cmd in list(suspensions) + list(assignments):
+            assert cmd.pool_id in range(self.num_pools), \
+                f"command names pool {cmd.pool_id}, but there are only pools 0..{self.num_pools - 1}"
         for id_ in range(self.num_pools):
             pool_suspensions = [s for s in suspensions if s.pool_id == id_]
             pool_assignments = [a for a in assignments if a.pool_id == id_]
